@@ -383,24 +383,3 @@ End Roundtrip.
 (* THE refinement theorem (M = S on the domain): every Frame in the domain comes back. *)
 Theorem delimited_roundtrip : forall c f, dom c f = true -> M_roundtrip c f = S_roundtrip c f.
 Proof. intros c f H. unfold S_roundtrip. apply roundtrip_section. exact H. Qed.
-
-(* the StoreFilter constants regenerated from store_filter.py: every marker decodes to itself *)
-Lemma store_filter_markers :
-  forallb (fun v => val_eqb (decode_str filter_default (st (render_val filter_default v))) v)
-          [VNaN; VNone; VInf false; VInf true] = true.
-Proof. vm_compute. reflexivity. Qed.
-
-(* non-vacuity of the domain: a Frame with a two-level index, two-level columns, an int, a float, a bool, a str
-   (holding the delimiter, a quote and spaces) and an object column with None / NaN is in the domain *)
-Definition example_cfg : cfg :=
-  mk_cfg ","%char true true filter_default 2 2 [tx "__index0__"; tx "__index1__"].
-Definition example_frame : tframe :=
-  mk_tframe [[VStr "x"; VInt 1]; [VStr "x"; VInt (-2)]]
-            [[VStr "A"; VInt 1]; [VStr "A"; VInt 2]; [VStr "B"; VInt 1]; [VStr "B"; VInt 2]; [VStr "C"; VInt 3]]
-            [(KInt, [VInt 9223372036854775807; VInt (-9223372036854775808)]);
-             (KFlt, [VFlt (-3) 2; VNaN]);
-             (KBool, [VBool true; VBool false]);
-             (KStr, [VStr "a,b ""q"" c"; VStr " 1"]);
-             (KObj, [VNone; VStr "a b"])].
-Example example_in_domain : dom example_cfg example_frame = true.
-Proof. vm_compute. reflexivity. Qed.
